@@ -9,6 +9,7 @@ From GI Require Import Gen.LockedFileConsts LockedFile.LockedFile LockedFile.Loc
   LockedFile.LockedFileA LockedFile.LockProofsA.
 From GI Require Import LockedFile.Policy LockedFile.PolicyProofs LockedFile.PolicyCall LockedFile.PolicyLock.
 From GI Require Import LockedFile.ApiCloses.
+From GI Require Import LockedFile.DeferClose.
 From GI Require Import LockedFile.Handles LockedFile.HandleProofs.
 Import ListNotations.
 
@@ -606,3 +607,28 @@ Theorem C06_source_premises_hold_on_model : forall i c pol',
   unlock_no_eintr (model_ops i c pol') /\ stat_static (model_ops i c pol') (a_regular default_attr).
 Proof. exact (fun i c pol' => conj (model_unlock_no_eintr i c pol') (model_stat_static i c pol')). Qed.
 Print Assumptions C06_source_premises_hold_on_model.
+
+
+(* ---- seventh wave: callbacks that do not return.  Transform runs the caller's t under the write
+   lock; t may return, fail, panic (recovered above Transform) or call runtime.Goexit.  Go runs
+   deferred calls in all four cases and the statements after t's call only in the first two
+   (after_callback: that rule, trusted reading of the language specification); the source DEFERS
+   the Close in Transform and Read (regenerated from the AST on every run) ... *)
+Theorem C06_close_is_deferred :
+  transform_defers_close = true /\ read_defers_close = true.
+Proof. exact close_is_deferred. Qed.
+Print Assumptions C06_close_is_deferred.
+
+(* ... hence, however the callback ends, the history of the process continues with the Close of
+   Transform's handle: descriptor closed, no lock of any kind left on the file (the runner's
+   holdseq `call` steps make such calls for real and compare the probe of another process with
+   the handle model run over exactly these events) *)
+Theorem C06_transform_releases_however_callback_ends : forall s h f e,
+  hinv s -> h_stuck s = false -> h_panic s = false ->
+  nth_error (h_files s) h = Some f -> open_handle f = true -> hf_mutex f = None ->
+  let s' := hrun s (after_callback transform_defers_close h e) in
+  fds (h_os s') (hf_fd f) = None /\
+  (forall k, holds (hf_fd f) k (ltab (h_os s') (hf_ino f)) = false) /\
+  nth_error (h_files s') h = Some (set_closed f).
+Proof. exact transform_releases_however_callback_ends. Qed.
+Print Assumptions C06_transform_releases_however_callback_ends.
